@@ -550,6 +550,16 @@ fn gen_ease(r: &mut Rng, n: usize, out: &mut dyn Write) {
             }
         }
     }
+    // parameterised custom easings, created and dropped op by op: the next one starts at the x the last one ended with
+    for k in 0..12 {
+        let xs: Vec<f32> = (0..4).map(|_| r.below(1025) as f32 / 1024.0).collect();
+        let (e1, e2) = [("c12", "c13"), ("c13", "c11"), ("c11", "c12")][k % 3];
+        writeln!(out, "ease {} {}", e1, xs.iter().map(|x| b(*x)).collect::<Vec<_>>().join(" ")).unwrap();
+        let mut ys = xs.clone(); ys.reverse();
+        writeln!(out, "ease {} {}", e2, ys.iter().map(|x| b(*x)).collect::<Vec<_>>().join(" ")).unwrap();
+        writeln!(out, "easeraw {} {}", e2, ys.iter().map(|x| b(*x)).collect::<Vec<_>>().join(" ")).unwrap();
+        writeln!(out, "# eq C13 1 2").unwrap();
+    }
     for _ in 0..n {
         let name = r.pick(&all);
         let xs: Vec<f32> = (0..32).map(|_| match r.below(4) { 0 => r.below(1025) as f32 / 1024.0, _ => r.unit_f32() }).collect();
@@ -831,6 +841,30 @@ fn gen_tl(r: &mut Rng, n: usize, out: &mut dyn Write) {
                     }
                 }
             }
+        }
+        // C01 with a *parameterised* custom easing (a struct with a field, boxed): a timeline is previewed, dropped, and
+        // rebuilt with another exponent, then evaluated at the same time — each property is eased by the easing its own
+        // timeline was built with, not by whatever object lived at that address before.  The twin in slot 7 is built while
+        // slot 6 is alive (so it cannot share addresses with it).
+        if r.chance(1, 5) {
+            let nan = anim_idx.len();
+            let j = r.below(nan as u64) as usize;
+            let only = |v: String| -> Vec<Option<String>> { (0..nan).map(|k| if k == j { Some(v.clone()) } else { None }).collect() };
+            let kind = fields[anim_idx[j]].0;
+            let (v0, v1) = if kind == "f32" || kind == "f64" { (b(0.0), b(64.0)) } else { ("0".to_string(), "64".to_string()) };
+            let mk = |e: &str| GenTl { shape: shape.into(), dur: Some(1.0), delay: None, rep: None, rev: None, easing: Some(e.into()),
+                kfs: vec![GenKf { pos: 0.0, easing: None, vals: only(v0.clone()) }, GenKf { pos: 1.0, easing: None, vals: only(v1.clone()) }], exact: true };
+            let (e1, e2) = match r.below(3) { 0 => ("c12", "c13"), 1 => ("c13", "c11"), _ => ("c11", "c12") };
+            let t = r.pick(&[0.5f32, 0.25, 0.75, 0.125]);
+            let target = vals_line(r, shape, tame).join(" ");
+            writeln!(out, "{}", mk(e1).line(6)).unwrap();
+            writeln!(out, "upd 6 {} {}", b(t), target).unwrap();
+            writeln!(out, "drop 6").unwrap();
+            writeln!(out, "{}", mk(e2).line(6)).unwrap();
+            writeln!(out, "upd 6 {} {}", b(t), target).unwrap();
+            writeln!(out, "{}", mk(e2).line(7)).unwrap();
+            writeln!(out, "upd 7 {} {}", b(t), target).unwrap();
+            writeln!(out, "# eq C01 1 3").unwrap();
         }
         // C03 at the level of a built timeline (dyadic configurations): what `reverse` means.  F = the forward timeline
         // of cycle d, R = the same keyframes reversing with cycle 2d.  At delay + d·x (x < 1) both are at position x on
